@@ -69,13 +69,16 @@ IterVals(S, w, dir, n, add) ==
   [j \in 1..Count(S, n) |-> AddV(add, o[j], WidthTab[w].base)]
 
 (* the slice after the call, flattened limb by limb: [pos, pos+count) holds the values,     *)
-(* every other element still holds what it held before (the harness pre-fills with a.sent)  *)
+(* every other element still holds what it held before (the harness pre-fills with a.sent; *)
+(* a caller that accumulates several calls in one slice logs the slice before as a.pre)     *)
 SliceAfter(a, vals) ==
   LET nl == WidthTab[a.w].nl IN
   [x \in 1..(a.len * nl) |->
      LET j == (x - 1) \div nl
          li == ((x - 1) % nl) + 1
-     IN IF j >= a.pos /\ j < a.pos + Len(vals) THEN vals[j - a.pos + 1][li] ELSE a.sent[li]]
+     IN IF j >= a.pos /\ j < a.pos + Len(vals) THEN vals[j - a.pos + 1][li]
+        ELSE IF "pre" \in DOMAIN a THEN a.pre[x]      \* an accumulating caller: what the slice held
+        ELSE a.sent[li]]
 
 FlatVals(w, vals) ==
   LET nl == WidthTab[w].nl IN
@@ -108,6 +111,7 @@ Do(a) ==
     [] a.op \in {"len", "nlen", "equal"} -> UNCHANGED vars
     [] a.op = "iter"  -> \* the caller must provide room; the property is silent otherwise
                          /\ a.pos >= 0 /\ a.pos + Count(bm[a.h], a.n) <= a.len
+                         /\ ("pre" \in DOMAIN a) => Len(a.pre) = a.len * WidthTab[a.w].nl
                          /\ UNCHANGED vars
     [] a.op = "getn"  -> a.n >= 0 /\ UNCHANGED vars      \* make([]T, n) with n < 0 is not in the property
     [] OTHER -> FALSE
